@@ -282,9 +282,9 @@ def _large_cases(draw):
 
 SUBS = [
     Sub("optimum_random", check, strategy=_strategy, quick=1500, thorough=40000, shards=16,
-        floors={"nt": 0.156, "beats_constants": 0.19, "hulls_differ": 0.318, "tie_pos_neg": 0.2, "interior_segment": 0.072, "grid_at_vertex": 0.2,
+        floors={"nt": 0.148, "beats_constants": 0.176, "hulls_differ": 0.296, "tie_pos_neg": 0.2, "interior_segment": 0.072, "grid_at_vertex": 0.2,
                 "vertical_segment": 0.05, "p_ignore>0": 0.03, "flip_used": 0.03, "equalized_odds": 0.05,
-                "groups>=3": 0.2, "lp_crosscheck": 0.031, "unequal_group_sizes": 0.3,
+                "groups>=3": 0.2, "lp_crosscheck": 0.031, "unequal_group_sizes": 0.277,
                 "optimum_inside_grid": 0.079}),
     Sub("large_separable_groups", check_large_separable, strategy=_large_cases, quick=48, thorough=600, shards=16,
         shrink_quick=False, floors={"group>=2000_rows": 0.45}),
